@@ -80,6 +80,9 @@ func checkC04(e *RunEnv) *CheckResult {
 				if d, ok := a.W[p]; ok {
 					if string(d) != v2(p) {
 						steps = append(steps, Write(p, v2(p)))
+					} else if p == "a" || p == "d/x" {
+						// back to the first version: bytes the object store already holds under another staged id
+						steps = append(steps, Write(p, v1(p)))
 					}
 					steps = append(steps, Delete(p))
 				} else {
